@@ -575,7 +575,7 @@ fn format_do_block_multiline(
 
     let mut result = "do {".to_string();
 
-    for stmt in statements {
+    for (i, stmt) in statements.iter().enumerate() {
         // Leading comments
         for comment in &stmt.leading {
             result.push('\n');
@@ -585,7 +585,10 @@ fn format_do_block_multiline(
         // Expression
         result.push('\n');
         result.push_str(&indent_str);
-        result.push_str(&format_expr_impl(&stmt.node, max_cols, inner_indent));
+        result.push_str(&protect_leading_minus(
+            format_expr_impl(&stmt.node, max_cols, inner_indent),
+            i == 0,
+        ));
         // Trailing comment
         if let Some(trailing) = &stmt.trailing {
             result.push_str("  ");
@@ -648,6 +651,17 @@ fn binary_op_str(op: &BinaryOp) -> &'static str {
         BinaryOp::Into => "into",
         BinaryOp::Where => "where",
         BinaryOp::Coalesce => "??",
+    }
+}
+
+/// Parenthesize a formatted statement that starts with `-` unless it is the first statement of
+/// its sequence. A line break does not end an expression that can continue with an infix
+/// operator, so `a` followed by `-b` on the next line would be read as `a - b`.
+pub fn protect_leading_minus(formatted: String, is_first: bool) -> String {
+    if !is_first && formatted.starts_with('-') {
+        format!("({})", formatted)
+    } else {
+        formatted
     }
 }
 
